@@ -189,6 +189,7 @@ func c01WhyKey(k c01Case, p *csr.ReqParam, reg ssh.PublicKey, sigValid bool) str
 
 func c01Single(c *ev.Ctx, k c01Case) {
 	c.Eval()
+	c.Crumb(k)
 	e := c01Env(k, k.Agent)
 	defer e.close()
 	if e.hErr != nil {
@@ -207,6 +208,7 @@ func (e *genv) uaAddsPre() int { return e.preAdds }
 
 func c01Handlers(c *ev.Ctx, k c01Case) {
 	c.Eval()
+	c.Crumb(k)
 	kk := k
 	kk.KeyDir, kk.LogName, kk.Policy = "pub", "alice", "NONS"
 	kk.Agent = "honest-with-key"
@@ -289,6 +291,7 @@ func c01Handlers(c *ev.Ctx, k c01Case) {
 
 func c01Sequence(c *ev.Ctx, k c01Case) {
 	c.Eval()
+	c.Crumb(k)
 	k.KeyDir, k.LogName, k.Policy = "pub", "alice", "NONS"
 	e := c01Env(k, "replay") // agent holds the key; behaviour is switched per run
 	defer e.close()
@@ -312,6 +315,7 @@ func c01Sequence(c *ev.Ctx, k c01Case) {
 // demanded for the key registered NOW (a cached key file, key object or verification result would keep the old one).
 func c01Rotation(c *ev.Ctx, k c01Case) {
 	c.Eval()
+	c.Crumb(k)
 	k.LogName, k.Policy = "alice", "NONS"
 	fileName := "alice.pub"
 	if k.KeyDir == "bare" {
